@@ -204,6 +204,19 @@ CHECKS["C08"] = dict(
          "callee alias after a join, loop-carried values) and two repaired defects of the constant folder are in known_findings.json.",
     design_ref="5/C08", engine="GIRMachine")
 
+CHECKS["C09"] = dict(
+    category="model_checking",
+    technique="the definition events of all behaviours of GIRMachine (TLC explores both arms of every unknown branch) are united per definition point; ValueExact.tla, checked by TLC, judges that the regular abstract values lian recorded for the point (s2space_p3, newest-copy rule) are among them and that no unknown state appears on a constant program",
+    text="Loop-free integer value programs (the C08 family without arrays, loops, may-alias receivers): overwrites, other field / other object, aliases, "
+         "parameter writes and reads, helpers called from two and three sites with different arguments directly and through a wrapper, callees with two arms and two "
+         "exits, branches, constant arithmetic over branch-dependent operands. For every definition point (statement, name, and field of a defined object) the set "
+         "of values over all paths is computed by the specification's machine; a regular abstract value outside it is an overwritten value retained, a value of "
+         "another field / object / call site, or a wrong operand combination.",
+    note="Contexts of a callee are united, so call-site sensitivity is judged at the call statements (distinct per site); a statement that uses one variable as both "
+         "operands is out of scope (the property asks for operand combinations). Two open findings: sensitivity lost below call depth one (C09-F1) and old field values kept "
+         "after a callee's write (C09-F2).",
+    design_ref="5/C09", engine="GIRMachine")
+
 NOT_YET = {
 }
 
@@ -214,8 +227,8 @@ ENGINES = [
          serves_properties=["C11"], kind_free_text="TLA+ rule-match predicate and taint closure, TLC as fixpoint engine over recorded runs"),
     dict(name="EntryPoints", path="specs/EntryPoints.tla harness/c20.py harness/c20_post.py",
          serves_properties=["C20"], kind_free_text="TLA+ contract + operational model + trace validation of runs, TLC"),
-    dict(name="GIRMachine", path="specs/GIRMachine.tla harness/c01.py harness/c02.py harness/c07.py harness/c08.py harness/c10.py harness/valgen.py harness/pygen.py harness/coregen.py harness/callgen.py harness/taintgen.py harness/schedtrace.py harness/girjson.py harness/lianrun.py",
-         serves_properties=["C01", "C02", "C07", "C08", "C10"], kind_free_text="executable TLA+ operational semantics of GIR, TLC as interpreter"),
+    dict(name="GIRMachine", path="specs/GIRMachine.tla harness/c01.py harness/c02.py harness/c07.py harness/c08.py harness/c09.py specs/ValueExact.tla harness/c10.py harness/valgen.py harness/pygen.py harness/coregen.py harness/callgen.py harness/taintgen.py harness/schedtrace.py harness/girjson.py harness/lianrun.py",
+         serves_properties=["C01", "C02", "C07", "C08", "C09", "C10"], kind_free_text="executable TLA+ operational semantics of GIR, TLC as interpreter"),
     dict(name="Pipeline", path="specs/Pipeline.tla harness/c14.py harness/c14_digest.py",
          serves_properties=["C14"], kind_free_text="deterministic TLA+ spec as trace validator + differential runs"),
     dict(name="GIRControl", path="specs/GIRControl.tla specs/ReachingDefs.tla harness/c04.py harness/c06.py harness/skeleton.py harness/girjson.py harness/lianrun.py",
